@@ -131,3 +131,16 @@ func NilOnlyIf(fn *ssa.Function, call *ssa.Call) (bool, *ssa.Return) {
 	}
 	return true, nil
 }
+
+// IsErrCtor0: the call itself constructs an error (errors.New / Errorf ...): not a fallible operation.
+func IsErrCtor0(com *ssa.CallCommon) bool {
+	cal := Callee(com)
+	if cal == nil {
+		return false
+	}
+	switch cal.String() {
+	case "github.com/pkg/errors.Errorf", "github.com/pkg/errors.New", "errors.New", "fmt.Errorf":
+		return true
+	}
+	return false
+}
